@@ -1,14 +1,17 @@
 (* C11 - Encoding emits exactly the modelled content in the documented CBOR shape.
-   PARTIAL: the full statement "wf x -> to_value x = Ok v /\ from_value v = Ok (assign x)" is proved
-   for the types without protected headers (Label, PartyInfo, CoseKey, CoseKeySet, ClaimsSet) and,
-   for the header-carrying types, in the slot-level form of C02 / C06 / C12 (protected slot =
-   stored bytes | h'' | bstr(encoded map); distinct keys; payload nil/bstr slot). What is missing:
-   the field-by-field round trip of Header (hence of the eight message types, SuppPubInfo and the
-   KDF context) as one theorem; it is covered by the correspondence run, where the implementation
-   must equal an independent Python encoder byte-for-byte and decode back to the original. *)
+   Proved for every type: "wf x -> to_value x = Ok v /\ from_value v = Ok (assign x)" (assign fills
+   each protected header built in memory with the bytes encoding assigns it), and through the bytes
+   for wire-normal values; plus the shape facts that do not merely restate the encoder: protected
+   slot = stored bytes | h'' | bstr(encoded map); is_empty <-> all eight fields empty; distinct keys;
+   totality.  That the decoded-back fields are the wire values "under their registered labels" is
+   the content of the accept-iff specifications (C08-C10, C18) through which these round trips are
+   proved.  The implementation is additionally compared byte-for-byte with an independent Python
+   encoder of the CDDL shapes. *)
 From Coset.Model Require Import Prelude Cbor Iana Label Msg Key Cwt Context Api.
 From Coset.Proofs Require Import Head RoundTrip KeyAccept TypedRoundTrip NoDupLabels NoPanic Retained.
 From Coset.Proofs Require ClaimsAccept.
+From Coset.Proofs Require HeaderRoundTrip MsgRoundTrip.
+Import HeaderRoundTrip MsgRoundTrip.
 
 (* a well-formed key encodes, and the output decodes to it *)
 Theorem C11_key_roundtrip :
@@ -47,6 +50,123 @@ Theorem C11_claims_roundtrip :
   forall c, ClaimsAccept.claims_wf c -> exists v, ClaimsSet_to_value c = Ok v /\ ClaimsSet_from_value v = Ok c.
 Proof. exact ClaimsAccept.claims_roundtrip. Qed.
 Print Assumptions C11_claims_roundtrip.
+
+(* headers, signatures, protected headers: a well-formed built value (bwf / sbwf / pbwf: field shapes,
+   distinct non-standard extras, not both IVs, nested protected headers either carrying consistent
+   bytes or encodable to wire-normal CBOR) encodes, and the output decodes to the value with its
+   protected headers now carrying the bytes that encoding assigned *)
+Theorem C11_header_encode_decode :
+  forall n h, bwf n h ->
+  exists v, header_to_value h = Ok v /\ header_at n v = Ok (assign_header h).
+Proof. exact HeaderRoundTrip.header_encode_decode. Qed.
+Print Assumptions C11_header_encode_decode.
+
+Theorem C11_signature_encode_decode :
+  forall n s, sbwf n s ->
+  exists v, signature_to_value s = Ok v /\ signature_from_value (parse_prot_at n) v = Ok (assign_sig s).
+Proof. exact HeaderRoundTrip.signature_encode_decode. Qed.
+Print Assumptions C11_signature_encode_decode.
+
+Theorem C11_protected_encode_decode :
+  forall n p, pbwf n p ->
+  exists d, protected_cbor_bstr p = Ok (VBytes d) /\
+            protected_from_bstr (parse_prot_at n) (VBytes d) = Ok (assign_prot p).
+Proof. exact HeaderRoundTrip.protected_encode_decode. Qed.
+Print Assumptions C11_protected_encode_decode.
+
+Theorem C11_flat_header_encode_decode :
+  forall n h, h_csigs h = [] -> flat_wf h ->
+  exists v, header_to_value h = Ok v /\ header_at n v = Ok h.
+Proof. exact HeaderRoundTrip.flat_header_encode_decode. Qed.
+Print Assumptions C11_flat_header_encode_decode.
+
+Theorem C11_decoded_header_is_built :
+  forall n v h, header_at n v = Ok h -> bwf n h /\ assign_header h = h.
+Proof. exact HeaderRoundTrip.decoded_header_is_built. Qed.
+Print Assumptions C11_decoded_header_is_built.
+
+(* every message structure and the KDF types: well-formed built values (T_bwf: components bwf at
+   the public nesting budget) encode, and the output decodes to the value with assigned protected bytes *)
+Theorem C11_CoseSign1_encode_decode :
+  forall m, CoseSign1_bwf m ->
+  exists v, CoseSign1_to_value m = Ok v /\ CoseSign1_from_value v = Ok (assign_CoseSign1 m).
+Proof. exact MsgRoundTrip.CoseSign1_encode_decode. Qed.
+Print Assumptions C11_CoseSign1_encode_decode.
+
+Theorem C11_CoseSign_encode_decode :
+  forall m, CoseSign_bwf m ->
+  exists v, CoseSign_to_value m = Ok v /\ CoseSign_from_value v = Ok (assign_CoseSign m).
+Proof. exact MsgRoundTrip.CoseSign_encode_decode. Qed.
+Print Assumptions C11_CoseSign_encode_decode.
+
+Theorem C11_CoseMac_encode_decode :
+  forall m, CoseMac_bwf m ->
+  exists v, CoseMac_to_value m = Ok v /\ CoseMac_from_value v = Ok (assign_CoseMac m).
+Proof. exact MsgRoundTrip.CoseMac_encode_decode. Qed.
+Print Assumptions C11_CoseMac_encode_decode.
+
+Theorem C11_CoseMac0_encode_decode :
+  forall m, CoseMac0_bwf m ->
+  exists v, CoseMac0_to_value m = Ok v /\ CoseMac0_from_value v = Ok (assign_CoseMac0 m).
+Proof. exact MsgRoundTrip.CoseMac0_encode_decode. Qed.
+Print Assumptions C11_CoseMac0_encode_decode.
+
+Theorem C11_CoseEncrypt_encode_decode :
+  forall m, CoseEncrypt_bwf m ->
+  exists v, CoseEncrypt_to_value m = Ok v /\ CoseEncrypt_from_value v = Ok (assign_CoseEncrypt m).
+Proof. exact MsgRoundTrip.CoseEncrypt_encode_decode. Qed.
+Print Assumptions C11_CoseEncrypt_encode_decode.
+
+Theorem C11_CoseEncrypt0_encode_decode :
+  forall m, CoseEncrypt0_bwf m ->
+  exists v, CoseEncrypt0_to_value m = Ok v /\ CoseEncrypt0_from_value v = Ok (assign_CoseEncrypt0 m).
+Proof. exact MsgRoundTrip.CoseEncrypt0_encode_decode. Qed.
+Print Assumptions C11_CoseEncrypt0_encode_decode.
+
+Theorem C11_CoseRecipient_encode_decode :
+  forall r, CoseRecipient_bwf r ->
+  exists v, CoseRecipient_to_value r = Ok v /\ CoseRecipient_from_value v = Ok (assign_CoseRecipient r).
+Proof. exact MsgRoundTrip.CoseRecipient_encode_decode. Qed.
+Print Assumptions C11_CoseRecipient_encode_decode.
+
+Theorem C11_SuppPubInfo_encode_decode :
+  forall s, SuppPubInfo_bwf s ->
+  exists v, SuppPubInfo_to_value s = Ok v /\ SuppPubInfo_from_value v = Ok (assign_SuppPubInfo s).
+Proof. exact MsgRoundTrip.SuppPubInfo_encode_decode. Qed.
+Print Assumptions C11_SuppPubInfo_encode_decode.
+
+Theorem C11_CoseKdfContext_encode_decode :
+  forall k, CoseKdfContext_bwf k ->
+  exists v, CoseKdfContext_to_value k = Ok v /\ CoseKdfContext_from_value v = Ok (assign_CoseKdfContext k).
+Proof. exact MsgRoundTrip.CoseKdfContext_encode_decode. Qed.
+Print Assumptions C11_CoseKdfContext_encode_decode.
+
+Theorem C11_messages_bytes_encode_decode :
+  bytes_ed CoseSign1_from_value CoseSign1_to_value CoseSign1_bwf assign_CoseSign1 /\
+  bytes_ed CoseSign_from_value CoseSign_to_value CoseSign_bwf assign_CoseSign /\
+  bytes_ed CoseMac_from_value CoseMac_to_value CoseMac_bwf assign_CoseMac /\
+  bytes_ed CoseMac0_from_value CoseMac0_to_value CoseMac0_bwf assign_CoseMac0 /\
+  bytes_ed CoseEncrypt_from_value CoseEncrypt_to_value CoseEncrypt_bwf assign_CoseEncrypt /\
+  bytes_ed CoseEncrypt0_from_value CoseEncrypt0_to_value CoseEncrypt0_bwf assign_CoseEncrypt0 /\
+  bytes_ed CoseRecipient_from_value CoseRecipient_to_value CoseRecipient_bwf assign_CoseRecipient /\
+  bytes_ed SuppPubInfo_from_value SuppPubInfo_to_value SuppPubInfo_bwf assign_SuppPubInfo /\
+  bytes_ed CoseKdfContext_from_value CoseKdfContext_to_value CoseKdfContext_bwf assign_CoseKdfContext.
+Proof. exact MsgRoundTrip.messages_bytes_encode_decode. Qed.
+Print Assumptions C11_messages_bytes_encode_decode.
+
+(* the well-formedness predicates are not vacuous: every decoded value satisfies them *)
+Theorem C11_decoded_messages_are_built :
+  (forall v m, CoseSign1_from_value v = Ok m -> CoseSign1_bwf m /\ assign_CoseSign1 m = m) /\
+  (forall v m, CoseSign_from_value v = Ok m -> CoseSign_bwf m /\ assign_CoseSign m = m) /\
+  (forall v m, CoseMac_from_value v = Ok m -> CoseMac_bwf m /\ assign_CoseMac m = m) /\
+  (forall v m, CoseMac0_from_value v = Ok m -> CoseMac0_bwf m /\ assign_CoseMac0 m = m) /\
+  (forall v m, CoseEncrypt_from_value v = Ok m -> CoseEncrypt_bwf m /\ assign_CoseEncrypt m = m) /\
+  (forall v m, CoseEncrypt0_from_value v = Ok m -> CoseEncrypt0_bwf m /\ assign_CoseEncrypt0 m = m) /\
+  (forall v m, CoseRecipient_from_value v = Ok m -> CoseRecipient_bwf m /\ assign_CoseRecipient m = m) /\
+  (forall v m, SuppPubInfo_from_value v = Ok m -> SuppPubInfo_bwf m /\ assign_SuppPubInfo m = m) /\
+  (forall v m, CoseKdfContext_from_value v = Ok m -> CoseKdfContext_bwf m /\ assign_CoseKdfContext m = m).
+Proof. exact MsgRoundTrip.decoded_messages_are_built. Qed.
+Print Assumptions C11_decoded_messages_are_built.
 
 (* header-carrying types, slot level: an empty built protected header is the zero-length string,
    any other the bstr wrapping the encoded map, a decoded one its stored bytes *)
